@@ -366,6 +366,41 @@ def _note_array_and_tracks(b, rng):
                     if int(row["onset_tick"]) != ft or int(row["duration_tick"]) != fd:
                         bad = bad or "the note written at tick %d for %d ticks is reported at tick %d for %d ticks" % (ft, fd, int(row["onset_tick"]), int(row["duration_tick"]))
             b.case("note_array/seconds_ticks_agree_and_durations_to_sounding_end", bad is None, case, bad or "")
+    # a MIDI file WITH a tempo map (slow, then four times faster) and a pedal: every loaded note sounds until its release or later, as the
+    # loaded part's own pedal stream dictates, and its duration in seconds reaches its sounding end
+    for tempi in (((0, 1000000), (960, 250000)), ((0, 300000),), ((0, 500000), (480, 750000), (1440, 400000))):
+        mf = mido.MidiFile(type=1, ticks_per_beat=480)
+        t0, t1 = mido.MidiTrack(), mido.MidiTrack()
+        cur = 0
+        for tk, mpq_ in tempi:
+            t0.append(mido.MetaMessage("set_tempo", tempo=mpq_, time=tk - cur))
+            cur = tk
+        for msg in (mido.Message("note_on", note=60, velocity=70, time=0), mido.Message("control_change", control=64, value=100, time=240), mido.Message("note_off", note=60, velocity=0, time=240),
+                    mido.Message("note_on", note=64, velocity=71, time=0), mido.Message("control_change", control=64, value=0, time=480), mido.Message("note_off", note=64, velocity=0, time=480),
+                    mido.Message("note_on", note=67, velocity=72, time=240), mido.Message("note_off", note=67, velocity=0, time=480)):
+            t1.append(msg)
+        mf.tracks.extend([t0, t1])
+        buf = _io.BytesIO()
+        mf.save(file=buf)
+        buf.seek(0)
+        case = {"midi_file_with_tempo_events": [list(x) for x in tempi], "pedal": "down at tick 240, up at tick 960"}
+        ok, perf = b.guard("note_array/no_exception", case, lambda: load_performance_midi(mido.MidiFile(file=buf)))
+        if not ok:
+            continue
+        bad = None
+        for pp in perf.performedparts:
+            if not len(pp.notes):
+                continue
+            n2 = [(n["midi_pitch"], float(n["note_on"]), float(n["note_off"])) for n in pp.notes]
+            c2 = [(c["number"], float(c["time"]), c["value"]) for c in pp.controls]
+            got = [float(n["sound_off"]) for n in pp.notes]
+            want = ref_sound_off(n2, c2, pp.sustain_pedal_threshold)
+            if not all(g >= off - 1e-9 for g, (_, _, off) in zip(got, n2)) or not all(any(abs(g - w) < 1e-6 for w in ws) for g, ws in zip(got, want)):
+                bad = bad or "loaded notes (pitch, on, off) %r with pedal stream %r have the sounding ends %r; the stream dictates %r" % (n2, c2, got, [sorted(w) for w in want])
+            okn, na = b.guard("note_array/no_exception", case, lambda: pp.note_array())
+            if okn and not all(abs(float(r["duration_sec"]) - (g - on)) < 1e-5 for r, g, (_, on, _) in zip(na, got, n2)):
+                bad = bad or "duration_sec %r, sounding end minus onset %r" % ([float(r["duration_sec"]) for r in na], [g - on for g, (_, on, _) in zip(got, n2)])
+        b.case("pedal/sounding_end_follows_the_parts_own_pedal_stream", bad is None, case, bad or "")
     # parts whose items carry no track number (the default), built with and without the `track` keyword of the part; controls with and without one
     for with_kw in (False, True):
         for ctl_key in (False, True):
